@@ -753,7 +753,7 @@ def run_o2(ses, rep):
                 if t[0] in ("Par", "TA"):
                     return mm(t[1])
                 return z3.BoolVal(False)
-            cons = O.valid_ops(root) + [O.wf(tin)]
+            cons = O.valid_ops(root) + [O.wf(tin, source=True)]
             oid = f"minus-minus/{entry}/{root.show()}"
             if not alts or not ses.reachable(cons + [z3.Or([g for g, _ in alts])]):
                 continue
@@ -866,7 +866,10 @@ def replay_assertion_lt(info):
 def replay_minus_minus(info):
     binp = common.native_build("default")
     for src in ("local y = -(-x)\n", "local y = - -x\n", "local y = -((-x)) + 1\n", "local t = { value = -((-offset)), other = 1 }\n", "return a * -(((-b))), 2\n", "local z = a - -b\n",
-                "local z = a - (-b)\n", "local w = -(-(-c))\n", "local v = -(-aaaaaaaaaaaaaaaaaaaa) + bbbbbbbbbbbbbbbbbbbbbbbbbbbbbb + cccccccccccccccccccccccccccccc\n"):
+                "local z = a - (-b)\n", "local w = -(-(-c))\n", "local v = -(-aaaaaaaaaaaaaaaaaaaa) + bbbbbbbbbbbbbbbbbbbbbbbbbbbbbb + cccccccccccccccccccccccccccccc\n",
+                "local v = - -aaaaaaaaaaaaaaaaaaaa + bbbbbbbbbbbbbbbbbbbbbbbbbbbbbb + cccccccccccccccccccccccccccccc\n", "return - -aaaaaaaaaaaaaaaaaaaa() * bbbbbbbbbbbbbbbbbbbbbbbbbbbbbb, cccccccccccccccccccccccccccccc\n",
+                "local t = {\n\tvalue = - -offset_offset_offset_offset + another_long_name_another_long_name + third_name_third_name_third,\n}\n",
+                "call(- -aaaaaaaaaaaaaaaaaaaa + bbbbbbbbbbbbbbbbbbbbbbbbbbbbbb, - - -cccccccccccccccccccccccccccccc .. dddddddddddddddddddd)\n"):
         for w in (120, 60, 30):
             rc, out, err = common.run_stylua(binp, src, ["--column-width", str(w)])
             if rc != 0:
